@@ -45,10 +45,14 @@ def cases(tier, rng):
                                     schemes=None if (i // 4) % 3 else ["ZM-VFNS", "FFN0", "FONLL-FFN0"])  # fmt: skip
         g = cards.rand_grid(rng)
         kind = cards.pick(rng, cfg["kinds"])
+        if fam == "pos" and cfg["theory"]["PTO"] == 3:
+            kind = cards.pick(rng, ["F2", "FL"])  # the only kinds with fl11 diagrams
         if rng.random() < 0.4:
             cfg["obs"]["TargetDIS"] = cards.pick(rng, ["neutron", "isoscalar", "iron", {"Z": float(rng.uniform(0, 3)), "A": 3.0}])
         pts = cards.rand_points(rng, g["xgrid"], n=2, q2lo=3.0, q2hi=3e3)
         heavy = cards.pick(rng, ["total", "light", "charm", "bottom"]) if fam in ("fonll", "pos") else None
+        if fam == "pos" and cfg["theory"]["PTO"] == 3:
+            heavy = cards.pick(rng, ["total", "light"])
         out.append(dict(id=f"c07-{i}", fam=fam, kind=kind, heavy=heavy, grid=g, points=pts, **cfg))
     return out
 
